@@ -85,12 +85,11 @@ func TemplatesWithSkipSchemaValidation(linter *support.Linter, values map[string
 		return
 	}
 
-	cvals, err := chartutil.CoalesceValues(chart, values)
-	if err != nil {
-		return
-	}
-
-	valuesToRender, err := chartutil.ToRenderValuesWithSchemaValidation(chart, cvals, options, caps, skipSchemaValidation)
+	// ToRenderValuesWithSchemaValidation coalesces the given values with the
+	// chart's defaults itself. Coalescing them here first would run that step
+	// twice, and the second pass puts back every default that a null in the
+	// values has just removed.
+	valuesToRender, err := chartutil.ToRenderValuesWithSchemaValidation(chart, values, options, caps, skipSchemaValidation)
 	if err != nil {
 		linter.RunLinterRule(support.ErrorSev, fpath, err)
 		return
